@@ -3,15 +3,43 @@ C11 — CRTF text round-trips and is read according to the CASA conventions.
 
 Theorems about the Impl model of `regions/io/crtf` (`Impl/Crtf.lean`, `Impl/CrtfWrite.lean`,
 `Impl/CrtfRead.lean`) at the STRUCTURED level (lines made of tokens; see the header of
-`Impl/Crtf.lean`), for lists of regions / files of any length.
+`Impl/Crtf.lean`), for lists of regions / files of ANY length.
 
-Candidate defects of the current code are the fields of `Quirks`; every theorem is stated for
-an arbitrary `q : Quirks` with the hypotheses that say which behaviour it needs, the
-full-strength clauses are refuted at `Quirks.current` by concrete witnesses
-(`*_refuted_*`, kernel evaluation of the executable model) and proved at full strength where
-the defect is absent.  WHEN A FIX LANDS IN /repo: flip the field in `Quirks.current`
-(`Impl/CrtfWrite.lean`); the matching `*_refuted_*` theorem stops compiling — delete it and
-mark the finding `fixed` in `known_findings/C11.json`.
+Main statements
+* `dec_roundtrip`, `fmtDec_grid`, `fmtDec_idem`            — the `fmt` decimal printer (§1)
+* `global_default_inline_override`, `global_lines_accumulate`, `prefix_rules`,
+  `coord_selects_frame`, `coord_default_image`, `frame_names_roundtrip`,
+  `units_required`, `box_kinds`, `box_corner_form`, `box_forms_agree`,
+  `ellipse_read_rule`, `bodyGeom_vals`                      — the reading rules (§3, §5)
+* `roundtrip_list` / `roundtrip_list_ok`                   — lists decompose region by region (§4)
+* `crtf_roundtrip` (what comes back), `crtf_roundtrip_partial` (it does come back, under the
+  decidable predicate `Good`), `crtf_roundtrip_fixed` (= the full clause for the repaired code),
+  `ellipse_axes_swap_involutive`                            — the round trip (§5–§8)
+* `crtf_fixed_point`, `crtf_fixed_point_meta`              — parse -> serialise -> parse (§8)
+* `text_preserved_*` (F7), `serialize_pure_*` / `second_serialisation_included` (F6)
+
+Candidate defects of the current code are the fields of `Quirks` (`Impl/CrtfWrite.lean`); every
+theorem is stated for an arbitrary `q : Quirks` with hypotheses that say which behaviour it
+needs; the full-strength clauses are refuted at `Quirks.current` by concrete witnesses
+(`*_refuted_Fnn`, kernel evaluation of the executable model) and proved where the defect is
+absent.
+
+WHEN A FIX LANDS IN /repo (the patches are `/verif/proposed_fixes/Fnn.diff`): set the field to
+`false` in `Quirks.current`; the theorem named below stops compiling — delete it (and the
+`example`s that use the same witness under `{ Quirks.current with … }` keep compiling), mark the
+finding `fixed` in `known_findings/C11.json`.
+
+  finding  field of `Quirks`        theorem to delete once fixed
+  F6       popInclude               serialize_pure_refuted_F6, second_serialisation_included
+  F7       textFromMeta             text_preserved_refuted_F7
+  F20      pointUnreadable          crtf_roundtrip_refuted_F20
+  F21      pixAsDeg                 crtf_roundtrip_refuted_F21
+  F33      quotePairUnreadable      crtf_roundtrip_refuted_F33
+  F31      dropLabelcolor           (none; the last `example` of §9 mentions it)
+  F32      labeloffRepr             (none; list keys are validated, not proved)
+
+When all three `crtf_roundtrip_refuted_*` are gone, `crtf_roundtrip_full Quirks.current` is
+`crtf_roundtrip_partial` with `Good Quirks.current = Representable`.
 -/
 import RegionsVerif.Impl.CrtfRead
 import Mathlib.Tactic.Linarith
@@ -2687,5 +2715,40 @@ example : rtOK Quirks.fixed ⟨"fk5", 3, "deg"⟩
 /-- F31: `labelcolor` is in the reader's vocabulary but not in the writer's: it does not
 survive (the `scalar` clause of `RT` covers it only once the writer knows the key). -/
 example : scalarKey Quirks.current .labelcolor = false ∧ scalarKey Quirks.fixed .labelcolor = true := by decide
+
+/-! ## 10. non-vacuity: concrete inputs meet the hypotheses of the conditional theorems -/
+
+/-- `crtf_roundtrip`: a well-formed region whose serialisation is accepted. -/
+example : WellFormed skyEllipse ∧ rtOK Quirks.current skyOpts [skyEllipse] = true := by decide +kernel
+
+/-- `crtf_fixed_point`: what is parsed from the writer's text is in the requested frame and
+units, so `toW` is defined on it. -/
+example : (match serialize Quirks.current skyOpts [skyEllipse] with
+    | .ok ls => (match parse Quirks.current id ls with
+      | .ok [x] => (toW skyOpts x).isSome
+      | _ => false)
+    | .error _ => false) = true := by decide +kernel
+
+/-- `global_default_inline_override`: `color` given globally and inline (inline wins), `frame` only globally. -/
+example : (match lineMeta id [(.color, .str "blue"), (.frame, .str "BARY")]
+      { excl := false, ann := false,
+        body := .point (.dec ⟨false, 1, 0⟩ .deg, .dec ⟨false, 2, 0⟩ .deg),
+        items := [.pair "color" (.scalar "red" .none)] } with
+    | .ok m => decide (m.get? .color = some (.str "red") ∧ m.get? .frame = some (.str "BARY"))
+    | .error _ => false) = true := by decide +kernel
+
+/-- `units_required`: `circle[[1deg, 2deg], 3]` has a length without unit. -/
+example : ∃ x ∈ lens (.circle (.dec ⟨false, 1, 0⟩ .deg, .dec ⟨false, 2, 0⟩ .deg) ⟨⟨false, 3, 0⟩, .none⟩),
+    x.u = .none := ⟨_, List.mem_singleton.mpr rfl, rfl⟩
+
+/-- `box_corner_form` / `box_forms_agree`: `box[[1deg, 2deg], [3deg, 5deg]]` is the rectangle
+centred on (2, 3.5) of size 2 x 3. -/
+example : bodyGeom (.box (.dec ⟨false, 1, 0⟩ .deg, .dec ⟨false, 2, 0⟩ .deg) (.dec ⟨false, 3, 0⟩ .deg, .dec ⟨false, 5, 0⟩ .deg))
+    = .ok (.rectangle, [(⟨2, .deg, true⟩, ⟨7 / 2, .deg, true⟩)], [⟨2, .deg, false⟩, ⟨3, .deg, false⟩], none) := by
+  decide +kernel
+
+/-- `dec_roundtrip` is tight: ties go to the even digit (`f'{0.125:.2f}' == '0.12'`, `f'{2.5:.0f}' == '2'`). -/
+example : (fmtDec 2 (1 / 8)).render = "0.12" ∧ (fmtDec 0 (5 / 2)).render = "2" ∧ (fmtDec 2 (-1 / 10000)).render = "-0.00" := by
+  decide +kernel
 
 end RegionsVerif.Props.C11
